@@ -65,7 +65,7 @@ def gen_poly(rng, labels, maxdeg=2, maxterms=4, coefs=(-3, -2, -1, 1, 2, 3), off
     return P
 
 
-SPECIAL_SHAPES = ["and", "sum_le_1", "unary", "or", "x_le_y", "knapsack", "knapsack"]
+SPECIAL_SHAPES = ["and", "sum_le_1", "unary", "or", "x_le_y", "knapsack", "knapsack", "and_image", "and_like"]
 
 
 def special_poly(rng, labels, shape):
@@ -83,6 +83,12 @@ def special_poly(rng, labels, shape):
     if shape == "unary" and len(ls) >= 2:                # P_wo_offset >= 0 with offset -k : unary slack when log_trick=False
         P = {(ls[0],): 1, (ls[1],): 2, (): -rng.choice([1, 2])}
         return P, "le"
+    if shape == "and_image" and len(ls) >= 3:           # spin image of  c1 x_a - c2 x_b x_c  (an AND gadget only if c1 = c2)
+        cc, d = rng.choice([1, 2, -1]), rng.choice([1, 2, 3, -1, -2])
+        return {(ls[1], ls[2]): cc, (ls[1],): -cc, (ls[2],): -cc, (ls[0],): d, (): cc - d}, rng.choice(["eq", "eq", "ne", "le"])
+    if shape == "and_like" and len(ls) >= 3:            # c1 a - c2 b c with c1 != c2
+        c1, c2 = rng.choice([(2, 1), (1, 2), (3, 1), (-2, -1), (-1, -3)])
+        return {(ls[0],): c1, (ls[1], ls[2]): -c2}, rng.choice(["eq", "eq", "le", "ge"])
     if shape == "knapsack" and len(ls) >= 2:             # weighted sum within a capacity (weights above 1, capacity above the term count)
         n = rng.randint(2, min(3, len(ls)))
         w = [rng.choice([1, 2, 3, 4]) for _ in range(n)]
@@ -178,7 +184,19 @@ def blank_record():
             "warned_always": False, "cons": [], "valid": [], "valid_complete": False, "unchanged": True, "raised": ""}
 
 
-def run_scenario(scen_id, steps, spin, py_labels, first_id, objective=None, arg_form="dict"):
+def fork_and_abuse(H, kind, label, spin):
+    """derive another model from H (copy / arithmetic / constructor) and add constraints of every recorded relation to THAT
+    model; H itself must not notice (its recorded constraints and is_solution_valid are observed afterwards)"""
+    Hf = {"copy": lambda: H.copy(), "add0": lambda: H + 0, "mul1": lambda: H * 1, "ctor": lambda: type(H)(H),
+          "neg": lambda: -(-H)}[kind]()
+    with warnings.catch_warnings():
+        warnings.simplefilter("ignore")
+        for rel in list(H.constraints):
+            if rel in RELS:
+                getattr(Hf, "add_constraint_%s_zero" % rel)({(label,): 1, (): -1})
+
+
+def run_scenario(scen_id, steps, spin, py_labels, first_id, objective=None, arg_form="dict", fork=None):
     """steps: list of dicts {mode:'cmp', P, rel, lam, lt, bounds(py), bounds_rec} or {mode:'gate', gate, geq, a, ops, lam}
     returns encoded records"""
     import qubovert as qv
@@ -245,6 +263,11 @@ def run_scenario(scen_id, steps, spin, py_labels, first_id, objective=None, arg_
         except Exception as e:                       # noqa: the exception is the observation
             raised = type(e).__name__ + ": " + str(e)[:100]
         after = snapshot_model(H, names)
+        if fork and not raised and problem_labels:
+            try:
+                fork_and_abuse(H, fork, problem_labels[0], spin)
+            except Exception:       # noqa  (what the derived model does is not judged here)
+                pass
         try:
             cons = [(r, raw_terms(p)) for r, ps in H.constraints.items() for p in ps]
         except Exception:
